@@ -698,6 +698,32 @@ where
 		}
 	}
 
+	/// During type inference `[]T` may stand in for an element type that is
+	/// not yet known, but a type written down with `[]T` as an element type
+	/// is invalid because `[]T` does not have a compile-time known size.
+	pub fn has_arraylike_element(&self) -> bool
+	{
+		match self
+		{
+			ValueType::Array { element_type, .. }
+			| ValueType::ArrayWithNamedLength { element_type, .. }
+			| ValueType::Slice { element_type }
+			| ValueType::SlicePointer { element_type }
+			| ValueType::EndlessArray { element_type }
+			| ValueType::Arraylike { element_type } =>
+			{
+				matches!(element_type.as_ref(), ValueType::Arraylike { .. })
+					|| element_type.has_arraylike_element()
+			}
+			ValueType::Pointer { deref_type }
+			| ValueType::View { deref_type } =>
+			{
+				deref_type.has_arraylike_element()
+			}
+			_ => false,
+		}
+	}
+
 	pub fn can_be_sized(&self) -> bool
 	{
 		match self
